@@ -1166,7 +1166,8 @@ def shape_of(prog):
 
 
 CAP_QUICK = 400
-CAP_THOROUGH_4 = 1300
+CAP_THOROUGH_3 = 4000
+CAP_THOROUGH_4 = 600
 NOCAP = 1 << 40
 
 
@@ -1174,7 +1175,7 @@ def all_programs(quick):
     """[(program, largest boundary set size, cap on the number of assignments)]"""
     progs = []
     for p in env_programs(3):
-        progs.append((p, 5, CAP_QUICK if quick else NOCAP))
+        progs.append((p, 5, CAP_QUICK if quick else CAP_THOROUGH_3))
     if not quick:
         for kinds in itertools.product(ENV_ATOMS, repeat=4):
             if any(x in TRAILING_ONLY for x in kinds[:-1]) or env_desc(kinds) is None:
@@ -1277,7 +1278,8 @@ def run(ctx):
                      "and of 16 bits into 4 parts plain, orders msb/lsb") if ctx.quick else
                     ("every composition of 8 bits (4 order spellings) and of 16/24/32 bits into <= 4 parts, orders msb/lsb "
                      "(24/32 bits in 4 parts: spare/fixed part first or last only)"),
-                    "%d assignments" % CAP_QUICK if ctx.quick else "none up to 3 atoms, %d for 4 atoms" % CAP_THOROUGH_4,
+                    "%d assignments" % CAP_QUICK if ctx.quick else
+                    "%d assignments up to 3 atoms, %d for 4 atoms" % (CAP_THOROUGH_3, CAP_THOROUGH_4),
                     "" if ctx.quick else " over the 5-atom level menu", ndiag))
     c["exhaustive"] = True
     ctx.assumptions += [
